@@ -532,9 +532,10 @@ def run_check(pid: str, tier: str, seed: int, jobs: int | None = None, n_cases: 
         }
         name = f"{pid}-{rule}-{hashlib.sha1((disc + json.dumps(scn, sort_keys=True, default=str)).encode()).hexdigest()[:10]}.json"
         path = os.path.join(VERIF, "replays", name)
-        if write:
-            with open(path, "w", encoding="utf-8") as fh:
-                json.dump(doc, fh, indent=1, default=str)
+        # (the replay file is written also under --no-write: a reported path must exist; only evidence is withheld there)
+        os.makedirs(os.path.dirname(path), exist_ok=True)
+        with open(path, "w", encoding="utf-8") as fh:
+            json.dump(doc, fh, indent=1, default=str)
         # replay once more in a fresh interpreter
         fresh = _fresh_digest(scn, "4242")
         doc_ok = fresh == run.digest
